@@ -880,8 +880,30 @@ def start(ctx, prog):
             t = p.blocks[b]["t"]
             if t["k"] == "call" and re.search(r"(update|set|change).*qos|resubscribe|replace", callee_path(t), re.I):
                 updates = True
-        if updates:
-            ctx.ok(rule, p.id, "a re-subscription updates the QoS its existing request is served with")
+        # the existing request lives in one of three places: the tracker, the log's waiters, or — when a publish
+        # earlier in the same read has woken it — Router.notifications (put back on the tracker at the end of the read)
+        homes = {"tracker": False, "waiters": False, "notifications": False}
+        for b in region:
+            t = p.blocks[b]["t"]
+            if t["k"] == "call":
+                cp = callee_path(t)
+                if re.search(r"Scheduler::\w*qos\w*$", cp, re.I):
+                    homes["tracker"] = True
+                if re.search(r"DataLog::\w*qos\w*$", cp, re.I):
+                    homes["waiters"] = True
+                fs = [x.split(".")[-1] for x in (receiver_fields(p, t) or [])]
+                if fs[-1:] == ["notifications"] and re.search(r"VecDeque::<T, A>::(iter_mut|retain_mut|make_contiguous|as_mut_slices|get_mut|range_mut)$|IntoIterator>::into_iter$", cp):
+                    homes["notifications"] = True
+            for st in p.blocks[b]["s"]:
+                if "lhs" in st and st["rv"]["k"] == "ref" and st["rv"].get("bk") == "mut" and place_fields(st["rv"]["pl"])[-1:] == ["notifications"]:
+                    homes["notifications"] = True
+        if updates and all(homes.values()):
+            ctx.ok(rule, p.id, "a re-subscription updates the QoS its existing request is served with, wherever that request waits (tracker, waiters, notifications)")
+        elif updates:
+            ctx.violation(rule, p.id, "re-subscription misses the request in: " + ", ".join(k for k, v in homes.items() if not v),
+                          "a re-subscription updates the QoS of the existing request in %s only, but the request may wait in %s — a publish earlier in the same read moves a parked request into Router.notifications, from where it goes back to the tracker with the OLD QoS: granted at the new QoS, served at the old one"
+                          % (", ".join(k for k, v in homes.items() if v) or "no place", ", ".join(k for k, v in homes.items() if not v)),
+                          site=p.loc(p.blocks[ins[0][3]]["t"].get("sp")))
         else:
             ctx.violation(rule, p.id, "re-subscription keeps the old QoS",
                           "when the filter is already subscribed prepare_filter changes nothing, but the Subscribe arm grants the newly requested QoS in the SUBACK: after re-subscribing at another QoS the client is served at the old one, not at the granted one",
